@@ -1,3 +1,11 @@
--- This module serves as the root of the `Gbo` library.
--- Import modules here that should be built as part of the library.
-import Gbo.Basic
+-- Root of the `Gbo` library: model, specifications, driver support and all property modules.
+import Gbo.Model.Connect
+import Gbo.Spec.Subdivision
+import Gbo.Driver.Check
+import Gbo.Props.C01
+import Gbo.Props.C02
+import Gbo.Props.C05
+import Gbo.Props.C06
+import Gbo.Props.C07
+import Gbo.Props.C12
+import Gbo.Props.C14
